@@ -145,7 +145,7 @@ def step (_ : Unit) (toks : List String) : Unit × Option Verdict :=
       let specOK := Spec.globalOK ops obs
       let nt := Spec.nontrivial ops obs
       if kind == "forced" then
-        let x := runOps { obsGates := obs.gates, obsOc := obs.oc } ops
+        let x := runOps { obsGates := obs.gates, obsOc := obs.oc, obsRej := (obs.cbs.filter (·.2 == 0)).map (·.1) } ops
         let m := renderModel x
         let o := " ".intercalate (obsT.take 7 ++ [ocTok (obsT.drop 7)])
         ((), some { agree := m == o, spec := if specOK then "ok" else "FAIL", nontrivial := nt,
